@@ -111,7 +111,25 @@ pub fn explore(ctx: &Ctx) {
     for (lat, lon, gmt) in [(30.0, 0.0, 9.0), (-45.0, 120.0, -4.0), (55.0, -60.0, 6.0), (-15.0, -150.0, 2.0), (60.0, 30.0, -10.0)] {
         sites.push(Site::new(lat, lon, 0.0, gmt));
     }
-    ctx.alphabet("part1", json!({"far_zone_sites": 5, "sites": sites.len(), "lats": lats, "zones": zs, "method": "Mwl", "rounding": "None", "dates": all.len()}));
+    sites.extend(off_lattice_sites(quick, 60.0));
+    // the validity frontier of Fajr/Isha in the twilight angle, to the last bit (see common::angle_frontier)
+    let fc = angle_frontier_cases(quick);
+    ctx.alphabet("angle_frontier", json!({"site_dates": fc.len(), "prayers": ["Fajr", "Isha"], "exempt": "a time within 2 s of lower culmination (12 h from Dhuhr)"}));
+    par_jobs(ctx, &fc, |(site, date), l| {
+        for which in [Prayer::Fajr, Prayer::Isha] {
+            let Some(ps) = angle_frontier(*site, *date, which) else { continue };
+            l.count("angle_frontiers_located", 1);
+            for p in &ps {
+                let r = pt(p, site.loc(), *date, None);
+                if [Prayer::Fajr, Prayer::Isha, Prayer::Imsaak].iter().any(|k| off(&r, *k).map(|o| o.abs() >= 43198).unwrap_or(false)) {
+                    l.count("frontier_probe_at_lower_culmination_exempt", 1);
+                    continue;
+                }
+                judge(ctx, l, p, *site, *date, false);
+            }
+        }
+    });
+    ctx.alphabet("part1", json!({"off_lattice_sites": off_lattice_sites(quick, 60.0), "far_zone_sites": 5, "sites": sites.len(), "lats": lats, "zones": zs, "method": "Mwl", "rounding": "None", "dates": all.len()}));
     let p1 = params_conv(Method::Mwl);
     par_jobs(ctx, &sites, |site, l| {
         for &d in &all {
